@@ -495,6 +495,9 @@ func mangle(c context, templateName string) string {
 	if c.element.name != "" {
 		s += "_" + c.element.String()
 	}
+	if c.state == stateAttr {
+		s += "_" + attributeValueClass(c)
+	}
 	return s
 }
 
